@@ -1,5 +1,6 @@
 import AdeuModel.Lemmas.Trim
 import AdeuModel.Lemmas.Frame
+import AdeuModel.Lemmas.Effective
 /-
 C02 — accepting the changes yields exactly the requested text.
 Part (a): the context-trimming step `_trim_common_context` (model `Adeu.Trim.trim`) never trims
@@ -57,6 +58,38 @@ theorem C02_located_in_accepted_view (s : Sess) (e : HEdit) (i : Nat) (hcm : s.c
     locate s e = some ⟨true, i, e.target.length⟩ := by
   rw [← spans_text_eq_extractText s _ hcm] at h1 h2 h
   exact locate_exact_clean s e i h1 h2 h
+
+/-! Part (c): what reaches the indexed step means the same on the text as what was submitted. -/
+open Adeu.Doc in
+/-- Trimming the common context, or turning an extension into an insertion, never changes what the edit means on
+the text: replacing the effective range by the effective text gives exactly the text with the whole matched range
+replaced by the whole new text — for every text, every in-bounds match and every new text. -/
+theorem C02_effective_edit_same_text (text : Str) (start len : Nat) (new : Str) (hb : start + len ≤ text.length) :
+    (match effectiveEdit text start len new with
+     | none => text
+     | some (s', l', n') => text.take s' ++ n' ++ text.drop (s' + l')) =
+    text.take start ++ new ++ text.drop (start + len) :=
+  effectiveEdit_same_text text start len new hb
+
+open Adeu.Doc in
+/-- … and `effectiveEdit` is what the model of `_apply_single_edit_heuristic` computes before it calls the indexed
+step (directly, or through the rewrite for text inside a pending insertion). -/
+theorem C02_heuristic_applies_effective_edit (s : Sess) (m : HMatch) (e : HEdit) :
+    heuristicDirect s m e =
+      match effectiveEdit (ospansText (s.spans m.clean)) m.start m.len e.new with
+      | none => (s, true)
+      | some (st, ln, nw) =>
+        if ln = 0 then
+          match nestedInsertAt s m.clean st nw e.comment with
+          | some r => r
+          | none => applyIndexed s m.clean st 0 nw e.comment (some .insertion)
+        else
+          match nestedProxyAt s m.clean st ln nw e.comment with
+          | some r => r
+          | none => applyIndexed s m.clean st ln nw e.comment (some (if nw.isEmpty then .deletion else .modification)) :=
+  heuristicDirect_eq s m e
+
+example : Doc.effectiveEdit "Hello big world".toList 0 15 "Hello small world".toList = some (6, 3, "small".toList) := by decide
 
 example : trim pyIsSpace "Hello big world".toList "Hello small world".toList = (6, 6) := by decide
 
